@@ -69,7 +69,7 @@ def scenario_lines(closures):
                 toks.append('%d:%s' % (idx[ty] if ty else 1, a['id']) if c['kind'] == 0 else a['id'])
             elif code == 'a':
                 toks.append('%d:%s' % (len(a['vals']), ','.join(a['vals'])))
-        lines.append('C %d %d 0 %d %s 0 %d %s' % (c['kind'], k % 3, k, c['sender'], len(codes), ' '.join(toks)))
+        lines.append('C %d %d 0 %d %s %d %d %s' % (c['kind'], k % 3, k, c['sender'], idx[c['ttype']], len(codes), ' '.join(toks)))
         ops[len(lines)] = k
     return lines, ops
 
@@ -154,7 +154,7 @@ def classify(c, where, aspects):
     after_array = any(code == 'a' and len(a['vals']) > 0 for code, a in zip(codes[:-1], c['args'][:-1]))
     null_string = any(code == 's' and a['null'] for code, a in zip(codes, c['args']))
     key = where + ':' + ','.join(asp)
-    if where == 'gdb' and after_array:
+    if where == 'gdb' and after_array and any(a.startswith('arg.') or a in ('missing', 'nargs') for a in asp):
         return 'gdb:argument-after-nonempty-array'
     if null_string and set(asp) <= {'arg.kind'}:
         return where + ':null-string'
@@ -205,8 +205,10 @@ def run(ctx):
 
     def batch(start):
         part = closures[start:start + B]
-        # message numbers restart in every scenario
-        part2 = [dict(c, name='m%d' % i) for i, c in enumerate(part)]
+        # few message names, shared by closures of different interfaces, signatures and directions (as `destroy`, `resize`,
+        # `set_selection` are in real protocols); the mock's message table still has one entry per closure
+        NAMES = ['resize', 'destroy', 'set_selection', 'configure', 'offer', 'release', 'm']
+        part2 = [dict(c, name=NAMES[i % len(NAMES)] if i % 3 else 'm%d' % i, ttype=IFACES[i % 2 * 2] if i % 5 == 0 else c['ttype']) for i, c in enumerate(part)]
         lines, ops = scenario_lines(part2)
         segs, raw = e3.run_scenario(lines, argv=('-C',) if (start // B) % 2 == 0 else (), ncontinue=len(part2) + 20)
         out = []
